@@ -12,6 +12,7 @@ import (
 	"go/parser"
 	"go/token"
 	"go/types"
+	"os"
 	"regexp"
 	"sort"
 	"strconv"
@@ -1097,12 +1098,13 @@ type row struct {
 	disj      []string // if set: the nearest enclosing if-condition is exactly this disjunction (normalised comparison texts)
 	emit      emitSel
 	need      []guard
-	min       int             // minimum number of emission sites expected
-	pos       []string        // if set: every cursor-position predicate (ContainsPos) guarding the emission is one of these texts
-	noSafe    []string        // calls that do count as data filters for this row's exact check (normally position / error tests do not)
-	exact     []string        // if set: the set of comparison/field atoms allowed as *data filters* at the emission (no others)
-	live      map[string]bool // if set: with these atoms fixed (text -> truth) the emission must still be reachable (the guards may not be stronger)
-	anySyntax bool            // the emission serves HCL-JSON as well: no guard may require a successful assertion to a native-syntax (hclsyntax) node type
+	min       int               // minimum number of emission sites expected
+	pos       []string          // if set: every cursor-position predicate (ContainsPos) guarding the emission is one of these texts
+	noSafe    []string          // calls that do count as data filters for this row's exact check (normally position / error tests do not)
+	exact     []string          // if set: the set of comparison/field atoms allowed as *data filters* at the emission (no others)
+	live      map[string]bool   // if set: with these atoms fixed (text -> truth) the emission must still be reachable (the guards may not be stronger)
+	fieldIs   map[string]string // if set: the emitted composite literal sets these fields to these values (text, single-definition locals inlined)
+	anySyntax bool              // the emission serves HCL-JSON as well: no guard may require a successful assertion to a native-syntax (hclsyntax) node type
 	why       string
 }
 
@@ -1277,6 +1279,11 @@ func runRows(prop string) func(p *Prog, r *Report) {
 								if a == nil || a.Expanded {
 									continue
 								}
+								unrelatedA := a.E != nil && fx == fn && !a.Pol && unrelatedAssertion(fx, a, em)
+								if unrelatedA {
+									extra = append(extra, "not a successful assertion that has nothing to do with what is emitted here ("+cmpText(a.E)+" of "+assertionText(fx, a)+")")
+									continue
+								}
 								if safeAtom(fx, a) {
 									unsafe := false
 									if c, ok := ast.Unparen(a.E).(*ast.CallExpr); ok && a.E != nil {
@@ -1346,12 +1353,11 @@ func runRows(prop string) func(p *Prog, r *Report) {
 						}
 						if len(extra) == 0 {
 							// early exits of the enclosing loop that skip this emission for some items
-							if rss := enclosingRanges(p, em, fn.Body); len(rss) > 0 {
-								rs := rss[0]
+							for _, rs := range enclosingRanges(p, em, fn.Body) {
 								emAtoms := map[string]bool{}
 								for _, a := range fn.GuardsAt(em).AllAtoms() {
 									if a != nil && a.E != nil {
-										emAtoms[exprStr(a.E)] = true
+										emAtoms[atomIdent(fn, a.E)] = true
 									}
 								}
 								ast.Inspect(rs.Body, func(k ast.Node) bool {
@@ -1378,7 +1384,17 @@ func runRows(prop string) func(p *Prog, r *Report) {
 											}
 										}
 										for _, a := range guardsAtBranch(p, fn, x).AllAtoms() {
-											if a == nil || a.E == nil || a.Expanded || safeAtom(fn, a) || emAtoms[exprStr(a.E)] {
+											if os.Getenv("HCLVERIF_ROWDEBUG") != "" && a != nil && a.E != nil {
+												fmt.Printf("ROWDEBUG0 %s %s atom=%s expanded=%v em=%v\n", rw.id, p.Pos(x), exprStr(a.E), a.Expanded, emAtoms[atomIdent(fn, a.E)])
+											}
+											if a == nil || a.E == nil || a.Expanded || emAtoms[atomIdent(fn, a.E)] {
+												continue
+											}
+											unrelated := unrelatedAssertion(fn, a, em)
+											if os.Getenv("HCLVERIF_ROWDEBUG") != "" {
+												fmt.Printf("ROWDEBUG %s %s atom=%s unrelated=%v safe=%v\n", rw.id, p.Pos(x), exprStr(a.E), unrelated, safeAtom(fn, a))
+											}
+											if safeAtom(fn, a) && !unrelated {
 												continue
 											}
 											allowed := false
@@ -1402,6 +1418,10 @@ func runRows(prop string) func(p *Prog, r *Report) {
 													allowed = true
 												}
 											}
+											if unrelated {
+												allowed = false
+												txt = "a successful assertion that has nothing to do with what is emitted here (" + txt + ")"
+											}
 											if !allowed {
 												extra = append(extra, "items with "+txt+" leave the loop early ("+x.Tok.String()+" at "+p.Pos(x)+")")
 											}
@@ -1414,6 +1434,43 @@ func runRows(prop string) func(p *Prog, r *Report) {
 						if len(extra) > 0 {
 							r.Add("E1.row", fn.Name, construct, p.Pos(em), Violated,
 								fmt.Sprintf("%s — an additional filter narrows what is emitted here: %s", rw.why, strings.Join(dedup(extra), "; ")), true)
+							continue
+						}
+					}
+					if rw.fieldIs != nil {
+						var lit *ast.CompositeLit
+						ast.Inspect(em, func(z ast.Node) bool {
+							if cl, ok := z.(*ast.CompositeLit); ok && lit == nil {
+								if len(cl.Elts) > 0 {
+									if _, isKV := cl.Elts[0].(*ast.KeyValueExpr); isKV {
+										lit = cl
+									}
+								}
+							}
+							return lit == nil
+						})
+						var wrong []string
+						var fnames []string
+						for f := range rw.fieldIs {
+							fnames = append(fnames, f)
+						}
+						sort.Strings(fnames)
+						for _, f := range fnames {
+							want := rw.fieldIs[f]
+							var got ast.Expr
+							if lit != nil {
+								got = litField(lit, f)
+							}
+							if got == nil {
+								wrong = append(wrong, f+" is not set (want "+want+")")
+								continue
+							}
+							if !sameText(fn, cmpText(got), want) && !sameText(fn, cmpText(fn.InlineLocals(got, 3)), want) {
+								wrong = append(wrong, f+" is "+cmpText(got)+" (want "+want+")")
+							}
+						}
+						if len(wrong) > 0 {
+							r.Add("E1.row", fn.Name, construct, p.Pos(em), Violated, rw.why+" — "+strings.Join(wrong, "; "), true)
 							continue
 						}
 					}
@@ -2099,4 +2156,136 @@ func nativeSyntaxGate(fn *Func, a *Atom) string {
 		}
 	}
 	return ""
+}
+
+// unrelatedAssertion: the atom is the ok flag of a type assertion on an expression that has
+// nothing to do with what the emission emits (`_, ok := item.Value.(*T)` deciding whether the
+// item's *key* is looked at): skipping the element on it filters data.
+func unrelatedAssertion(fn *Func, a *Atom, em ast.Node) bool {
+	info := fn.Info()
+	id, ok := ast.Unparen(a.E).(*ast.Ident)
+	if !ok {
+		return false
+	}
+	var subject ast.Expr
+	n := 0
+	for _, asn := range fn.Assignments(info.ObjectOf(id)) {
+		n++
+		if s, ok := asn.(*ast.AssignStmt); ok && len(s.Rhs) == 1 && len(s.Lhs) == 2 {
+			if ta, ok := ast.Unparen(s.Rhs[0]).(*ast.TypeAssertExpr); ok && ta.Type != nil {
+				subject = ta.X
+			}
+		}
+	}
+	if subject == nil || n != 1 {
+		return false
+	}
+	st := exprStr(subject)
+	// what the emission is built from (through single-definition locals)
+	related := false
+	ast.Inspect(em, func(z ast.Node) bool {
+		e, ok := z.(ast.Expr)
+		if !ok || related {
+			return !related
+		}
+		if strings.Contains(exprStr(e), st) || strings.Contains(exprStr(fn.InlineLocals(e, 4)), st) {
+			related = true
+		}
+		return !related
+	})
+	if !related {
+		// through the definitions of the emission's variables (any arity: x, y := f(subject))
+		seen := map[types.Object]bool{}
+		var follow func(n ast.Node, depth int)
+		follow = func(n ast.Node, depth int) {
+			ast.Inspect(n, func(z ast.Node) bool {
+				if related {
+					return false
+				}
+				id, ok := z.(*ast.Ident)
+				if !ok {
+					return true
+				}
+				o := info.ObjectOf(id)
+				v, isVar := o.(*types.Var)
+				if !isVar || v.IsField() || seen[o] || depth <= 0 {
+					return true
+				}
+				seen[o] = true
+				for f := fn; f != nil; f = f.Parent {
+					for _, asn := range f.Assignments(o) {
+						var rhs []ast.Expr
+						switch s := asn.(type) {
+						case *ast.AssignStmt:
+							rhs = s.Rhs
+						case *ast.RangeStmt:
+							rhs = []ast.Expr{s.X}
+						case *ast.ValueSpec:
+							rhs = s.Values
+						}
+						for _, e := range rhs {
+							if containsWord(exprStr(e), st) {
+								related = true
+							}
+							follow(e, depth-1)
+						}
+					}
+				}
+				return true
+			})
+		}
+		follow(em, 4)
+	}
+	if related {
+		return false
+	}
+	// a variable of the emission defined by an assertion / selection on the subject's root
+	root := st
+	if i := strings.LastIndex(st, "."); i > 0 {
+		root = st[:i]
+	}
+	_ = root
+	return true
+}
+
+// atomIdent: the text of a guard expression; a bare identifier is qualified by its
+// declaration position (two different variables both called `ok` are different guards).
+func atomIdent(fn *Func, e ast.Expr) string {
+	if id, ok := ast.Unparen(e).(*ast.Ident); ok {
+		if o := fn.Info().ObjectOf(id); o != nil {
+			return fmt.Sprintf("%s@%d", id.Name, o.Pos())
+		}
+	}
+	return exprStr(e)
+}
+
+func assertionText(fn *Func, a *Atom) string {
+	if id, ok := ast.Unparen(a.E).(*ast.Ident); ok {
+		for _, asn := range fn.Assignments(fn.Info().ObjectOf(id)) {
+			if s, ok := asn.(*ast.AssignStmt); ok && len(s.Rhs) == 1 {
+				return exprStr(s.Rhs[0])
+			}
+		}
+	}
+	return "?"
+}
+
+func containsWord(s, w string) bool {
+	for i := 0; ; {
+		j := strings.Index(s[i:], w)
+		if j < 0 {
+			return false
+		}
+		j += i
+		before := j == 0 || !(isIdentByte(s[j-1]))
+		after := j+len(w) >= len(s) || !(isIdentByte(s[j+len(w)]))
+		if before && after {
+			return true
+		}
+		i = j + 1
+	}
+}
+
+func isIdentByte(b byte) bool {
+	return b == '_' || b >= '0' && b <= '9' || b >= 'a' && b <= 'z' || b >= 'A' && b <= 'Z'
 }
